@@ -74,6 +74,15 @@ func (k *key) negated() *key {
 	return &key{priv: priv, pub: elliptic.MarshalCompressed(curve, k.x, y), x: k.x, y: y}
 }
 
+// altEncoding is the 65-byte encoding prefix || x || y of k's public key.
+func (k *key) altEncoding(prefix byte) []byte {
+	out := make([]byte, 65)
+	out[0] = prefix
+	k.x.FillBytes(out[1:33])
+	k.y.FillBytes(out[33:])
+	return out
+}
+
 func sign(k *key, data []byte) []byte {
 	s, err := crypto.Sign(k.priv, data)
 	if err != nil {
@@ -91,6 +100,12 @@ func refVerify(pub []byte, data, sig []byte) bool {
 	switch {
 	case len(pub) == 33 && (pub[0] == 2 || pub[0] == 3):
 		x, y = elliptic.UnmarshalCompressed(elliptic.P256(), pub)
+	case len(pub) == 65 && (pub[0] == 4 || pub[0] == 6 || pub[0] == 7):
+		// the node's decoder (crypto.DecodePoint) takes x and y as they are for all three prefixes
+		x, y = new(big.Int).SetBytes(pub[1:33]), new(big.Int).SetBytes(pub[33:])
+		if !elliptic.P256().IsOnCurve(x, y) {
+			x = nil
+		}
 	}
 	if x == nil {
 		return false
@@ -146,6 +161,9 @@ type voteSpec struct {
 	Accept bool   `json:"accept"`
 	// facts by construction
 	hashOK, sigOK bool
+	// alt: Signer is an uncompressed / hybrid (04/06/07 || x || y) encoding of arbiter key Key. crypto.DecodePoint
+	// accepts all of them for the same point, so ONE arbiter can present up to four byte-distinct signers.
+	alt bool
 }
 
 type confirmSpec struct {
@@ -157,6 +175,11 @@ type confirmSpec struct {
 
 	sponsorIsNormalArbiter, propSigOK bool
 	wire                              []byte
+	// mem: set when a vote carries a 65-byte signer.  Every decoder of a vote bounds the signer to 33 bytes, so such
+	// a confirmation cannot arrive from the network; it is handed to the validators as the in-memory value instead
+	// (the validators' own contract, not the wire's, is what the statement is about).
+	mem      *payload.Confirm
+	InMemory bool `json:"in_memory_only,omitempty"`
 }
 
 type caseV struct {
@@ -398,7 +421,13 @@ func genConfirm(t *rapid.T, w *world, label string, preferred []int, forceHonest
 		need := w.thr + 1 - k + rapid.IntRange(0, 2).Draw(t, label+"stuffExtra")
 		for i := 0; i < need; i++ {
 			src := votes[rapid.IntRange(0, k-1).Draw(t, label+"dupOf")]
-			if rapid.Bool().Draw(t, label+"resign") {
+			if rapid.IntRange(0, 2).Draw(t, label+"stuffAlt") == 0 {
+				ki := src.spec.Key
+				signer := pool[ki].altEncoding(rapid.SampledFrom([]byte{4, 6, 7}).Draw(t, label+"altPrefix"))
+				b := mk("alt-encoding-signer", ki, signer, proposalHash, true, &pool[ki], nil)
+				b.spec.alt = true
+				votes = append(votes, b)
+			} else if rapid.Bool().Draw(t, label+"resign") {
 				ki := src.spec.Key
 				votes = append(votes, mk("duplicate-resigned", ki, pool[ki].pub, proposalHash, true, &pool[ki], nil))
 			} else {
@@ -415,7 +444,7 @@ func genConfirm(t *rapid.T, w *world, label string, preferred []int, forceHonest
 	for i := 0; i < nadv; i++ {
 		kind := rapid.SampledFrom([]string{"duplicate-resigned", "duplicate-identical", "reject", "foreign-signer",
 			"abnormal-signer", "wrong-proposal-hash", "bad-signature", "signed-by-other-key", "negated-key-signer",
-			"short-signature", "garbage-signer", "accept-flag-flipped"}).Draw(t, label+"advKind")
+			"short-signature", "garbage-signer", "accept-flag-flipped", "alt-encoding-signer"}).Draw(t, label+"advKind")
 		if len(w.abnormal) > 0 && rapid.IntRange(0, 3).Draw(t, label+"preferAbnormal") == 0 {
 			kind = "abnormal-signer"
 		}
@@ -467,6 +496,12 @@ func genConfirm(t *rapid.T, w *world, label string, preferred []int, forceHonest
 			b := mk(kind, ki, pool[ki].pub, proposalHash, true, &pool[ki], voteData(proposalHash, pool[ki].pub, false))
 			b.spec.sigOK = false
 			votes = append(votes, b)
+		case "alt-encoding-signer":
+			ki := anyArb()
+			signer := pool[ki].altEncoding(rapid.SampledFrom([]byte{4, 6, 7}).Draw(t, label+"altPrefix2"))
+			b := mk(kind, ki, signer, proposalHash, true, &pool[ki], nil)
+			b.spec.alt = true
+			votes = append(votes, b)
 		case "negated-key-signer":
 			ki := anyArb()
 			nk := pool[ki].negated()
@@ -507,6 +542,13 @@ func genConfirm(t *rapid.T, w *world, label string, preferred []int, forceHonest
 		t.Fatalf("harness: serialize confirm: %v", err)
 	}
 	c.wire = buf.Bytes()
+	for _, b := range votes {
+		if b.spec.alt {
+			cp := conf
+			c.mem, c.InMemory = &cp, true
+			break
+		}
+	}
 
 	// harness self-check: the by-construction facts agree with the independent verifier
 	if refVerify(sponsor, pdata, psig) != c.propSigOK {
@@ -531,12 +573,33 @@ func seq(n int) []int {
 // oracle: the statement's predicate.  Returns "" when the confirmation must be
 // accepted, else the first clause that forbids it; also the set of distinct
 // valid signers (arbiter indexes).
-func oracle(w *world, c *confirmSpec, conf *payload.Confirm) (string, map[int]bool) {
+//
+// Votes whose signer is an alternative ENCODING of an arbiter's key admit two
+// readings that both satisfy the statement: "not an arbiter's key bytes" (what
+// the pinned node does: the confirmation is refused) and "that arbiter" (counted
+// once, by identity).  strict is the first reading and decides which refusals are
+// wrong; lenient is the second and decides which acceptances are wrong.  Without
+// such votes the two coincide.
+func oracle(w *world, c *confirmSpec, conf *payload.Confirm) (strict, lenient string, lenientSigners map[int]bool) {
 	signers := map[int]bool{}
+	lenientSigners = map[int]bool{}
 	reason := ""
 	set := func(r string) {
 		if reason == "" {
 			reason = r
+		}
+		if lenient == "" {
+			lenient = r
+		}
+	}
+	setStrict := func(r string) {
+		if reason == "" {
+			reason = r
+		}
+	}
+	setLenient := func(r string) {
+		if lenient == "" {
+			lenient = r
 		}
 	}
 	if !c.sponsorIsNormalArbiter {
@@ -556,6 +619,17 @@ func oracle(w *world, c *confirmSpec, conf *payload.Confirm) (string, map[int]bo
 			set("vote-signature-invalid")
 		default:
 			ai, isArb := w.byKey[string(v.Signer)]
+			if !isArb && s.alt {
+				setStrict("vote-by-non-arbiter")
+				if li, ok := w.byKey[string(pool[s.Key].pub)]; !ok {
+					setLenient("vote-by-non-arbiter")
+				} else if w.arbiters[li].Kind == "crc-abnormal" {
+					setLenient("vote-by-abnormal-arbiter")
+				} else {
+					lenientSigners[li] = true
+				}
+				continue
+			}
 			switch {
 			case !isArb:
 				set("vote-by-non-arbiter")
@@ -563,20 +637,27 @@ func oracle(w *world, c *confirmSpec, conf *payload.Confirm) (string, map[int]bo
 				set("vote-by-abnormal-arbiter")
 			default:
 				signers[ai] = true
+				lenientSigners[ai] = true
 			}
 		}
 	}
 	c.Distinct = len(signers)
 	if len(signers) <= w.thr {
-		set("no-two-thirds-quorum-of-distinct-arbiters")
+		setStrict("no-two-thirds-quorum-of-distinct-arbiters")
 	}
-	return reason, signers
+	if len(lenientSigners) <= w.thr {
+		setLenient("no-two-thirds-quorum-of-distinct-arbiters")
+	}
+	return reason, lenient, lenientSigners
 }
 
 // evaluate runs the node's checks on the wire form of the confirmation.
 func evaluate(t *rapid.T, w *world, cv *caseV, c *confirmSpec) (accepted bool, signers map[int]bool, ok bool) {
 	var conf payload.Confirm
-	if err := conf.Deserialize(bytes.NewReader(c.wire)); err != nil {
+	if c.mem != nil {
+		conf = *c.mem
+		vk.Class("in-memory-only/65-byte-signer")
+	} else if err := conf.Deserialize(bytes.NewReader(c.wire)); err != nil {
 		t.Fatalf("harness: confirm does not decode: %v", err)
 	}
 	if len(conf.Votes) != len(c.Votes) {
@@ -585,7 +666,7 @@ func evaluate(t *rapid.T, w *world, cv *caseV, c *confirmSpec) (accepted bool, s
 	if conf.Proposal.Hash() != dhash(proposalData(conf.Proposal.Sponsor, conf.Proposal.BlockHash, conf.Proposal.ViewOffset)) {
 		t.Fatalf("harness: reference proposal hash differs from payload.DPOSProposal.Hash")
 	}
-	reason, signers := oracle(w, c, &conf)
+	reason, lenient, signers := oracle(w, c, &conf)
 
 	blockchain.DefaultLedger = &blockchain.Ledger{Arbitrators: w.real}
 	var e1, e2 error
@@ -599,8 +680,8 @@ func evaluate(t *rapid.T, w *world, cv *caseV, c *confirmSpec) (accepted bool, s
 	}
 	accepted = e1 == nil && e2 == nil
 	switch {
-	case accepted && reason != "":
-		vk.Report(t, "C25:confirm:accepted-although:"+reason,
+	case accepted && lenient != "":
+		vk.Report(t, "C25:confirm:accepted-although:"+lenient,
 			fmt.Sprintf("n=%d threshold=%d distinct valid signers=%d votes=%d", cv.N, w.thr, len(signers), len(conf.Votes)), cv)
 		return accepted, signers, false
 	case !accepted && reason == "":
